@@ -148,6 +148,18 @@ func xmlDocOfLen(n, variant int) string {
 	return self
 }
 
+// the bytes of a JSON stream: the specification's alphabet is ASCII, its character ~ stands for ONE byte above 0x7f (a byte no
+// reader may re-encode; the reference is the direct decode of the same bytes, whatever encoding/json makes of them)
+func jsonStreamBytes(text string) []byte {
+	b := []byte(text)
+	for i, c := range b {
+		if c == '~' {
+			b[i] = 0xe9
+		}
+	}
+	return b
+}
+
 func xmlStream(id streamID, variant int) []byte {
 	var b strings.Builder
 	ws := []string{" ", "\n", "\t"}
@@ -309,7 +321,7 @@ func replayStream(line []byte, a *Acc) {
 	for v := 0; v < variants; v++ {
 		var data []byte
 		if l.Mode == "json" {
-			data = []byte(l.ID.Text)
+			data = jsonStreamBytes(l.ID.Text)
 		} else {
 			data = xmlStream(l.ID, v)
 		}
@@ -574,7 +586,7 @@ func replayFile(line []byte, a *Acc) {
 	for v := 0; v < variants; v++ {
 		var data []byte
 		if l.Mode == "json" {
-			data = []byte(l.ID.Text)
+			data = jsonStreamBytes(l.ID.Text)
 		} else {
 			data = xmlStream(l.ID, v)
 		}
@@ -647,6 +659,13 @@ func replayFile(line []byte, a *Acc) {
 				one(fmt.Sprintf("file:%s:error:tail=%s", l.Mode, l.Tail), fmt.Sprintf("%s returned error %v, specification says tail %s", fn, rerr, l.Tail))
 				continue
 			}
+			// XML: the raw values are precisely the bytes consumed -- their concatenation is a prefix of the file
+			if l.Mode == "xml" && len(raws) > 0 {
+				if cat := bytes.Join(raws, nil); !bytes.HasPrefix(data, cat) {
+					one("file:xml:raw-prefix", fmt.Sprintf("%s: the concatenation of the raw values %q is not a prefix of the file", fn, cat))
+					continue
+				}
+			}
 			for i, r := range raws {
 				doc := data[l.Docs[i].S-1 : l.Docs[i].E]
 				ok := false
@@ -665,7 +684,7 @@ func replayFile(line []byte, a *Acc) {
 	// a damaged JSON file: the brace that opens the second document replaced by a closing one -- the scanner meets a
 	// closing brace outside any object: the Maps read so far and an error (never silence)
 	if l.Mode == "json" && l.ID.Cut == 0 && len(l.Docs) >= 2 {
-		data := []byte(l.ID.Text)
+		data := jsonStreamBytes(l.ID.Text)
 		first, _ := mxj.NewMapJson(data[l.Docs[0].S-1 : l.Docs[0].E])
 		data[l.Docs[1].S-1] = '}'
 		name := filepath.Join(dir, "damaged")
@@ -687,7 +706,7 @@ func replayFile(line []byte, a *Acc) {
 	if l.ID.Cut == 0 && len(l.Docs) >= 2 {
 		whole := func() []byte {
 			if l.Mode == "json" {
-				return []byte(l.ID.Text)
+				return jsonStreamBytes(l.ID.Text)
 			}
 			return xmlStream(l.ID, 0)
 		}
